@@ -36,6 +36,7 @@ static struct ev E[NE], D[NP];      /* D[p]: poster p's "done" event */
 static long seq;
 static int owner_fd[2], owner_fd_reg;
 static int owner_fd2[2] = { -1, -1 }, ofd_gen;
+static int app_pipe[2] = { -1, -1 }, prelude;
 static int idle_fd[2];
 static struct iv_fd idle_ofd;      /* a second, never-ready descriptor: the poll batch has room for two entries */
 static struct iv_fd *ofd;
@@ -136,7 +137,7 @@ static void ev_handler(void *_e)
 	if (e->handled > e->posts_started)
 		mc_fail("event-over", "handler of %s invoked %ld times for %ld posts", e->name, e->handled, e->posts_started);
 	if (handler_budget > 0) {
-		c = mc_choose(7, MC_ACTION, "handler-act");
+		c = mc_choose(8, MC_ACTION, "handler-act");
 		if (c)
 			handler_budget--;
 		switch (c) {
@@ -156,6 +157,15 @@ static void ev_handler(void *_e)
 			if (owner_fd_reg) {
 				mc_obs("O:unreg-fd");
 				drop_owner_fd();
+			}
+			break;
+		case 7:
+			/* unregister the owner's descriptor but keep the object around (an application that registers it again later):
+			 * a stale dispatch reaches the handler instead of freed memory */
+			if (owner_fd_reg) {
+				mc_obs("O:unreg-fd-keep");
+				iv_fd_unregister(ofd);
+				owner_fd_reg = 0;
 			}
 			break;
 		case 6:
@@ -320,7 +330,24 @@ static void exec_one(void)
 	iv_init();
 	E[0].name = "E0"; E[1].name = "E1"; E[2].name = "E2";
 	D[0].name = "D0"; D[1].name = "D1"; D[2].name = "D2";
-	if (mc_choose(2, MC_CONFIG, "first-register-hits-EMFILE")) {
+	prelude = mc_choose(3, MC_CONFIG, "prelude");
+	if (prelude == 2) {
+		/* an earlier life of the process: its only event was registered and unregistered again (the process-wide count of
+		 * events went 1 -> 0), and the application opened a descriptor of its own afterwards, which gets the lowest free number */
+		struct iv_event *x = malloc(sizeof(*x));
+		memset(x, 0xbe, sizeof(*x));
+		IV_EVENT_INIT(x);
+		x->cookie = NULL;
+		x->handler = ev_handler;
+		if (iv_event_register(x) != 0)
+			mc_fail("try-failed", "iv_event_register failed");
+		iv_event_unregister(x);
+		free(x);
+		if (pipe(app_pipe) < 0)
+			mc_broken("pipe");
+		mc_obs("O:event-cycle-then-app-pipe");
+	}
+	if (prelude == 1) {
 		/* the thread's very first iv_event_register fails on a transient EMFILE and is simply retried */
 		struct iv_event *x = malloc(sizeof(*x));
 		int ret;
@@ -390,6 +417,14 @@ static void exec_one(void)
 	for (i = 0; i < NE; i++)
 		check_event(&E[i], "at exit");
 	iv_deinit();
+	if (ofd) {
+		free(ofd);
+		ofd = NULL;
+	}
+	if (app_pipe[0] >= 0) {
+		close(app_pipe[0]);
+		close(app_pipe[1]);
+	}
 	if (with_fd) {
 		close(owner_fd[0]);
 		close(owner_fd[1]);
